@@ -110,7 +110,7 @@ class CovMat(object):
             with warnings.catch_warnings():
                 warnings.simplefilter("ignore")
                 self._cor_mat = self._mat / np.outer(_sqrt_vars, _sqrt_vars)
-        return self._cor_mat
+        return np.array(self._cor_mat)  # a copy, like `mat`
 
     @property
     def I(self):  # noqa: E743 (ambiguous function name)
@@ -122,7 +122,7 @@ class CovMat(object):
                 self._inverse = np.linalg.inv(self._mat)
             except np.linalg.LinAlgError:
                 pass  # fail silently if matrix is singular
-        return self._inverse
+        return None if self._inverse is None else np.array(self._inverse)  # a copy, like `mat`
 
     @property
     def chol(self):
@@ -653,7 +653,7 @@ class MatrixGaussianError(GaussianErrorBase):
                 if self.reference is None:
                     raise AttributeError("Requested 'absolute' error array for error object declared 'relative', but 'reference' not set!")
             self._err = np.sqrt(np.diag(self.cov_mat))
-        return self._err
+        return np.array(self._err)  # a copy, like the matrices: the caller's array is not the cache
 
     @property
     def error_rel(self):
@@ -663,7 +663,7 @@ class MatrixGaussianError(GaussianErrorBase):
                 if self.reference is None:
                     raise AttributeError("Requested 'relative' error array for error object declared 'absolute', but 'reference' not set!")
             self._err_rel = np.sqrt(np.diag(self.cov_mat_rel))
-        return self._err_rel
+        return np.array(self._err_rel)  # a copy, like the matrices: the caller's array is not the cache
 
     @property
     def error_uncor(self):
